@@ -217,6 +217,8 @@ var c13PairExceptions = map[string]string{
 }
 
 func checkC13(c *Ctx) {
+	c13RebuildCarriesFields(c)
+	c13ItemMethodsCoverFields(c)
 	table := c13Table(c)
 	byFn := map[string][]c13Entry{}
 	byKey := map[string][]c13Entry{}
@@ -1004,4 +1006,153 @@ func c13ExprText(f *Fn, e ast.Expr, depth int) string {
 	}
 	rec(e, depth)
 	return sb.String()
+}
+
+// c13RebuildCarriesFields: the generator's optimisation passes rewrite the
+// item tree through `apply` methods: when a child changed, the method returns
+// a fresh node of its own type. The fresh node must carry every field of the
+// old one — a field left out silently resets that constraint (a `contains`
+// rebuilt without its min/max becomes a plain `contains`). The rule applies
+// to every method in the package that returns a composite literal of its own
+// receiver type: all fields of the struct must be keyed in the literal.
+func c13RebuildCarriesFields(c *Ctx) {
+	const rule = "generator.rebuild-carries-every-field"
+	p := c.pkg(jsP)
+	n := 0
+	for _, f := range c.funcs(p) {
+		fd := f.Decl
+		if fd == nil || fd.Recv == nil || len(fd.Recv.List) != 1 {
+			continue
+		}
+		info := f.Info()
+		rt := info.TypeOf(fd.Recv.List[0].Type)
+		if rt == nil {
+			continue
+		}
+		if pt, ok := rt.(*types.Pointer); ok {
+			rt = pt.Elem()
+		}
+		named, ok := types.Unalias(rt).(*types.Named)
+		if !ok {
+			continue
+		}
+		st, ok := named.Underlying().(*types.Struct)
+		if !ok || st.NumFields() < 2 {
+			continue // a single-field node cannot drop a sibling field
+		}
+		k := 0
+		ast.Inspect(f.Body, func(x ast.Node) bool {
+			if _, isLit := x.(*ast.FuncLit); isLit {
+				return false
+			}
+			rs, ok := x.(*ast.ReturnStmt)
+			if !ok {
+				return true
+			}
+			for _, r := range rs.Results {
+				e := ast.Unparen(r)
+				if u, ok := e.(*ast.UnaryExpr); ok && u.Op == token.AND {
+					e = ast.Unparen(u.X)
+				}
+				cl, ok := e.(*ast.CompositeLit)
+				if !ok {
+					continue
+				}
+				t := info.TypeOf(cl)
+				if t == nil || !types.Identical(types.Unalias(t), named) {
+					continue
+				}
+				// only rebuilds: the literal takes at least one field from the receiver or the method is apply
+				set := map[string]bool{}
+				for _, el := range cl.Elts {
+					if kv, ok := el.(*ast.KeyValueExpr); ok {
+						set[exprString(kv.Key)] = true
+					}
+				}
+				var missing []string
+				for i := 0; i < st.NumFields(); i++ {
+					if !set[st.Field(i).Name()] {
+						missing = append(missing, st.Field(i).Name())
+					}
+				}
+				k++
+				n++
+				c.check(rule, fmt.Sprintf("%s#%d", f.Name, k), cl.Pos(), len(missing) == 0 || len(cl.Elts) == st.NumFields() && len(set) == 0,
+					fmt.Sprintf("a method of %s that returns a fresh %s must set every field of the struct (missing: %v): the field left out is reset to its zero value when an optimisation pass rewrites the node", named.Obj().Name(), named.Obj().Name(), missing))
+			}
+			return true
+		})
+	}
+	c.expect(rule, 3)
+	c.note("%d rebuild sites of multi-field item nodes", n)
+}
+
+// c13ItemMethodsCoverFields: the generator's item nodes are hash-consed
+// (uniqueItems interns a node by its hash) and rendered by generate. A field
+// that hash does not write makes two different constraints intern to one node;
+// a field that generate never reads is a constraint that is never emitted.
+// Every field of an item struct must be mentioned (through the receiver) by
+// both methods.
+func c13ItemMethodsCoverFields(c *Ctx) {
+	p := c.pkg(jsP)
+	nHash, nGen := 0, 0
+	for _, f := range c.funcs(p) {
+		fd := f.Decl
+		if fd == nil || fd.Recv == nil || len(fd.Recv.List) != 1 || len(fd.Recv.List[0].Names) != 1 {
+			continue
+		}
+		if fd.Name.Name != "hash" && fd.Name.Name != "generate" {
+			continue
+		}
+		info := f.Info()
+		rt := info.TypeOf(fd.Recv.List[0].Type)
+		if pt, ok := rt.(*types.Pointer); ok {
+			rt = pt.Elem()
+		}
+		named, ok := types.Unalias(rt).(*types.Named)
+		if !ok || !strings.HasPrefix(named.Obj().Name(), "item") {
+			continue
+		}
+		st, ok := named.Underlying().(*types.Struct)
+		if !ok || st.NumFields() == 0 {
+			continue
+		}
+		recv := info.Defs[fd.Recv.List[0].Names[0]]
+		used := map[string]bool{}
+		whole := false
+		ast.Inspect(f.Body, func(x ast.Node) bool {
+			switch e := x.(type) {
+			case *ast.SelectorExpr:
+				if identObj(info, e.X) == recv {
+					used[e.Sel.Name] = true
+					return false
+				}
+			case *ast.Ident:
+				if info.Uses[e] == recv {
+					whole = true // the receiver is passed on as a whole (delegation)
+				}
+			}
+			return true
+		})
+		var missing []string
+		for i := 0; i < st.NumFields(); i++ {
+			if !used[st.Field(i).Name()] {
+				missing = append(missing, st.Field(i).Name())
+			}
+		}
+		// a method that hands the whole receiver to a helper is judged at the helper
+		rule := "generator.hash-covers-every-field"
+		why := "the node is interned by this hash: a field it does not write lets two different constraints collapse into one node"
+		if fd.Name.Name == "generate" {
+			rule = "generator.generate-reads-every-field"
+			why = "a field that generate never reads is a constraint that is never emitted"
+			nGen++
+		} else {
+			nHash++
+		}
+		c.check(rule, f.Name, fd.Pos(), len(missing) == 0 || whole,
+			fmt.Sprintf("every field of %s must be mentioned by %s (missing: %v): %s", named.Obj().Name(), fd.Name.Name, missing, why))
+	}
+	c.expect("generator.hash-covers-every-field", 10)
+	c.expect("generator.generate-reads-every-field", 10)
 }
